@@ -77,9 +77,9 @@ static bool write_replay(const std::string &path, const RunSpec &rs, const Progr
   fprintf(f, "seed %" PRIu64 "\nstatus %d\ncls %s\nmsg %s\ntrace_hash %" PRIu64 "\n", rs.seed, rs.status, rs.cls.c_str(),
           rs.msg.c_str(), rs.trace_hash);
   const dsim::Config &c = rs.cfg;
-  fprintf(f, "cfg %d %d %d %d %d %d %d %d %d %d %" PRIu64 " %d %" PRIu64 " %" PRIu64 " %d %d\n", c.strategy, c.pct_depth, c.pct_len,
+  fprintf(f, "cfg %d %d %d %d %d %d %d %d %d %d %" PRIu64 " %d %" PRIu64 " %" PRIu64 " %d %d %d\n", c.strategy, c.pct_depth, c.pct_len,
           c.sticky_percent, c.cas_spurious_permille, c.oversleep_permille, c.eintr_permille, c.stall_permille, c.stall_max,
-          c.spin_bound, c.max_steps, c.plain_sched ? 1 : 0, c.sched_seed, c.fault_seed, c.tso ? 1 : 0, c.tso_drain_percent);
+          c.spin_bound, c.max_steps, c.plain_sched ? 1 : 0, c.sched_seed, c.fault_seed, c.tso ? 1 : 0, c.tso_drain_percent, c.weak_stores ? 1 : 0);
   fprintf(f, "params %zu", p.params.size());
   for (auto v : p.params) fprintf(f, " %" PRId64, v);
   fprintf(f, "\nthreads %zu\n", p.threads.size());
@@ -125,10 +125,11 @@ static bool read_replay(const std::string &path, RunSpec &rs, Program &p)
     else if (key == "trace_hash") rs.trace_hash = strtoull(val.c_str(), nullptr, 10);
     else if (key == "cfg") {
       dsim::Config &c = rs.cfg;
-      int ps = 0, tso = 0;
-      sscanf(val.c_str(), "%d %d %d %d %d %d %d %d %d %d %" SCNu64 " %d %" SCNu64 " %" SCNu64 " %d %d", &c.strategy, &c.pct_depth, &c.pct_len,
+      int ps = 0, tso = 0, weak = 0;
+      sscanf(val.c_str(), "%d %d %d %d %d %d %d %d %d %d %" SCNu64 " %d %" SCNu64 " %" SCNu64 " %d %d %d", &c.strategy, &c.pct_depth, &c.pct_len,
              &c.sticky_percent, &c.cas_spurious_permille, &c.oversleep_permille, &c.eintr_permille, &c.stall_permille, &c.stall_max,
-             &c.spin_bound, &c.max_steps, &ps, &c.sched_seed, &c.fault_seed, &tso, &c.tso_drain_percent);
+             &c.spin_bound, &c.max_steps, &ps, &c.sched_seed, &c.fault_seed, &tso, &c.tso_drain_percent, &weak);
+      c.weak_stores = weak != 0;
       c.plain_sched = ps != 0;
       c.tso = tso != 0;
     } else if (key == "params") {
